@@ -83,6 +83,7 @@ type SpecFunc struct {
 	Src     string
 	File    string
 	Line    int
+	Prop    bool // boolean property: each instance becomes a named SMT predicate over the enclosing bound variables
 	Pred    bool // set-like predicate over its last parameter: each instance becomes a named SMT predicate with a defining axiom
 	Opaque  bool // declared but never unfolded unless `reveal`ed
 	Recurse bool
@@ -221,7 +222,7 @@ func loadProgram(repo string) (*Program, error) {
 	return p, nil
 }
 
-var kwRe = regexp.MustCompile(`^(spec|opaque|pred|before|after|contract|iface|purelemma|ints|requires|ensures|modifies|loop|mode|trusted|panics|use|decreases|lemma|trigger|end)\b`)
+var kwRe = regexp.MustCompile(`^(spec|opaque|pred|prop|before|after|contract|iface|purelemma|ints|requires|ensures|modifies|loop|mode|trusted|panics|use|decreases|lemma|trigger|end)\b`)
 
 func (p *Program) parseContractFile(path, short string) error {
 	fh, err := os.Open(path)
@@ -282,13 +283,13 @@ func (p *Program) parseContractFile(path, short string) error {
 		kw := kwRe.FindString(rc.text)
 		rest := strings.TrimSpace(rc.text[len(kw):])
 		switch kw {
-		case "spec", "opaque", "pred":
+		case "spec", "opaque", "pred", "prop":
 			// spec name(a T, b U) R = expr
 			m := regexp.MustCompile(`^(\w+)\s*\(([^)]*)\)\s*([\w\[\]\*\.]+)\s*=\s*(.*)$`).FindStringSubmatch(rest)
 			if m == nil {
 				return fmt.Errorf("%s:%d: malformed spec function", path, rc.line)
 			}
-			sf := &SpecFunc{Name: m[1], Pkg: short, Ret: m[3], Src: m[4], File: path, Line: rc.line, Opaque: kw == "opaque", Pred: kw == "pred"}
+			sf := &SpecFunc{Name: m[1], Pkg: short, Ret: m[3], Src: m[4], File: path, Line: rc.line, Opaque: kw == "opaque", Pred: kw == "pred", Prop: kw == "prop"}
 			for _, prm := range strings.Split(m[2], ",") {
 				prm = strings.TrimSpace(prm)
 				if prm == "" {
